@@ -8,6 +8,13 @@ Generic over the numeric carrier `F` (core classes only).  The population stack 
 HEAD is the top.  Random draws are explicit parameters (witnesses).  Code-shaped: populations are
 popped before they are validated, reactants are located by *equality*, indexing a too short
 molecule list panics.
+
+Which of several *equal* individuals is taken as the reactant is a witness: `onWallAt`,
+`decompositionAt`, `intermolecularAt`, `synthesisAt` take the index (indices) the reactant(s) were
+found at; whether a reactant exists at all (the `Err` / `unwrap` outcomes) is decided as the code
+does.  `onWall` … `synthesis` instantiate the witness with the code's choice (first match, second
+reactant first match elsewhere).  `Rx` / `Step` / `runSteps` model a history of updates as the CRO
+loop produces it (two populations pushed, one update).
 -/
 import MahfModel.Model.Sexp
 namespace MahfModel.Cro
@@ -86,8 +93,15 @@ def St.energyAt [Add F] [OfNat F 0] (st : St F) (d : Nat) : F :=
 
 variable [BEq F] [Add F] [Sub F] [Mul F] [LT F] [LE F] [DecidableLT F] [DecidableLE F] [OfNat F 0] [OfNat F 1]
 
-/-- `OnWallIneffectiveCollisionUpdate::execute`; `alpha` is the draw `gen_range(lr..1.0)`. -/
-def onWall (lr alpha : F) (st : St F) : Res F :=
+/-- Is `i` the index of an individual equal to `r`? -/
+def isAt (pop : Pop F) (i : Nat) (r : Ind F) : Bool :=
+  match pop[i]? with
+  | some x => x == r
+  | none => false
+
+/-- `OnWallIneffectiveCollisionUpdate::execute`; `alpha` is the draw `gen_range(lr..1.0)`, `wi` the
+index the reactant was found at. -/
+def onWallAt (lr alpha : F) (wi : Nat) (st : St F) : Res F :=
   match st.stack with
   | pPop :: rPop :: pop :: rest =>
     match pPop with
@@ -96,7 +110,8 @@ def onWall (lr alpha : F) (st : St F) : Res F :=
       | [r] =>
         match position pop r with
         | none => ⟨.err, { st with stack := pop :: rest }, 0⟩
-        | some i =>
+        | some _ =>
+          let i := wi
           match st.mols[i]? with
           | none => ⟨.panic, { st with stack := pop :: rest }, 0⟩
           | some m =>
@@ -117,7 +132,7 @@ def onWall (lr alpha : F) (st : St F) : Res F :=
 
 /-- `DecompositionUpdate::execute`. `dA` is the split draw when the reactant has enough energy;
 `δ1 δ2` are the two buffer draws and `dB` the split draw of the buffer-assisted branch. -/
-def decomposition (dA δ1 δ2 dB : F) (st : St F) : Res F :=
+def decompositionAt (dA δ1 δ2 dB : F) (wi : Nat) (st : St F) : Res F :=
   match st.stack with
   | pPop :: rPop :: pop :: rest =>
     match pPop with
@@ -126,7 +141,8 @@ def decomposition (dA δ1 δ2 dB : F) (st : St F) : Res F :=
       | [r] =>
         match position pop r with
         | none => ⟨.err, { st with stack := pop :: rest }, 0⟩
-        | some i =>
+        | some _ =>
+          let i := wi
           match st.mols[i]? with
           | none => ⟨.panic, { st with stack := pop :: rest }, 0⟩
           | some m =>
@@ -151,7 +167,7 @@ def decomposition (dA δ1 δ2 dB : F) (st : St F) : Res F :=
   | _ => ⟨.err, st, 0⟩
 
 /-- `IntermolecularIneffectiveCollisionUpdate::execute`; `d4 = gen_range(0.0..=1.0)`. -/
-def intermolecular (d4 : F) (st : St F) : Res F :=
+def intermolecularAt (d4 : F) (wi wj : Nat) (st : St F) : Res F :=
   match st.stack with
   | pPop :: rPop :: pop :: rest =>
     match pPop with
@@ -160,10 +176,12 @@ def intermolecular (d4 : F) (st : St F) : Res F :=
       | [r1, r2] =>
         match position pop r1 with
         | none => ⟨.err, { st with stack := pop :: rest }, 0⟩
-        | some i =>
-          match positionOther pop i r2 with
+        | some i0 =>
+          match positionOther pop i0 r2 with
           | none => ⟨.err, { st with stack := pop :: rest }, 0⟩
-          | some j =>
+          | some _ =>
+            let i := wi
+            let j := wj
             match st.mols[i]?, st.mols[j]? with
             | some mi, some mj =>
               let mi := mi.hit
@@ -187,7 +205,7 @@ def intermolecular (d4 : F) (st : St F) : Res F :=
   | _ => ⟨.err, st, 0⟩
 
 /-- `SynthesisUpdate::execute` (no draw). The first reactant lookup `unwrap()`s. -/
-def synthesis (st : St F) : Res F :=
+def synthesisAt (wi wj : Nat) (st : St F) : Res F :=
   match st.stack with
   | pPop :: rPop :: pop :: rest =>
     match pPop with
@@ -196,10 +214,12 @@ def synthesis (st : St F) : Res F :=
       | [r1, r2] =>
         match position pop r1 with
         | none => ⟨.panic, { st with stack := pop :: rest }, 0⟩
-        | some i =>
-          match positionOther pop i r2 with
+        | some i0 =>
+          match positionOther pop i0 r2 with
           | none => ⟨.err, { st with stack := pop :: rest }, 0⟩
-          | some j =>
+          | some _ =>
+            let i := wi
+            let j := wj
             match st.mols[i]?, st.mols[j]? with
             | some mi, some mj =>
               let tot := (r1.obj + mi.ke) + (r2.obj + mj.ke)
@@ -213,6 +233,47 @@ def synthesis (st : St F) : Res F :=
       | _ => ⟨.err, { st with stack := pop :: rest }, 0⟩
     | _ => ⟨.err, { st with stack := rPop :: pop :: rest }, 0⟩
   | _ => ⟨.err, st, 0⟩
+
+/-! ### The code's choice of reactant: first match; second reactant first match elsewhere -/
+
+/-- Index the code finds a single reactant at (`position`). -/
+def firstIdx (st : St F) : Nat :=
+  match st.stack with
+  | _ :: (r :: _) :: pop :: _ => (position pop r).getD 0
+  | _ => 0
+
+/-- Index the code finds the second of two reactants at (`position` skipping the first's index). -/
+def secondIdx (st : St F) : Nat :=
+  match st.stack with
+  | _ :: (r1 :: r2 :: _) :: pop :: _ =>
+    match position pop r1 with
+    | some i => (positionOther pop i r2).getD 0
+    | none => 0
+  | _ => 0
+
+def onWall (lr alpha : F) (st : St F) : Res F := onWallAt lr alpha (firstIdx st) st
+def decomposition (dA δ1 δ2 dB : F) (st : St F) : Res F := decompositionAt dA δ1 δ2 dB (firstIdx st) st
+def intermolecular (d4 : F) (st : St F) : Res F := intermolecularAt d4 (firstIdx st) (secondIdx st) st
+def synthesis (st : St F) : Res F := synthesisAt (firstIdx st) (secondIdx st) st
+
+/-- A single-reactant witness is legal when it points at an individual equal to the reactant
+(vacuously legal when the frame is malformed or no such individual exists: it is not used then). -/
+def legal1 (wi : Nat) (st : St F) : Bool :=
+  match st.stack with
+  | _ :: [r] :: pop :: _ => (position pop r).isNone || isAt pop wi r
+  | _ => true
+
+/-- Two-reactant witnesses: distinct indices of individuals equal to the first / second reactant. -/
+def legal2 (wi wj : Nat) (st : St F) : Bool :=
+  match st.stack with
+  | _ :: [r1, r2] :: pop :: _ =>
+    match position pop r1 with
+    | none => true
+    | some i0 =>
+      match positionOther pop i0 r2 with
+      | none => true
+      | some _ => isAt pop wi r1 && isAt pop wj r2 && wi != wj
+  | _ => true
 
 /-- `ChemicalReactionInit::execute`: one fresh molecule per individual of the current population. -/
 def init (ke : F) (st : St F) : St F :=
@@ -266,6 +327,55 @@ def synthesisCriterion (beta : F) (st : St F) : Crit :=
               | none => .panic
               | some mj => .val (decide (mi.ke ≤ beta) && decide (mj.ke ≤ beta))
     | _ => .err
+
+/-! ### Histories: what the CRO loop does to population, molecules and buffer
+
+One pass of the loop selects reactant(s), derives product(s) from them (both are *pushed* on the
+stack, the population below is not touched) and calls one update. -/
+
+/-- One reaction update with all its witnesses (draws and reactant indices). -/
+inductive Rx (F : Type) where
+  | onWall (lr alpha : F) (wi : Nat)
+  | decomp (dA δ1 δ2 dB : F) (wi : Nat)
+  | inter (d4 : F) (wi wj : Nat)
+  | synth (wi wj : Nat)
+
+def Rx.apply : Rx F → St F → Res F
+  | .onWall lr a wi, st => onWallAt lr a wi st
+  | .decomp dA δ1 δ2 dB wi, st => decompositionAt dA δ1 δ2 dB wi st
+  | .inter d4 wi wj, st => intermolecularAt d4 wi wj st
+  | .synth wi wj, st => synthesisAt wi wj st
+
+def Rx.legalIdx : Rx F → St F → Bool
+  | .onWall _ _ wi, st => legal1 wi st
+  | .decomp _ _ _ _ wi, st => legal1 wi st
+  | .inter _ wi wj, st => legal2 wi wj st
+  | .synth wi wj, st => legal2 wi wj st
+
+structure Step (F : Type) where
+  reactants : Pop F
+  products : Pop F
+  rx : Rx F
+
+/-- The state the update sees: products on top of the reactants on top of the old stack. -/
+def Step.pushed (s : Step F) (st : St F) : St F :=
+  { st with stack := s.products :: s.reactants :: st.stack }
+
+def Step.apply (s : Step F) (st : St F) : Res F := s.rx.apply (s.pushed st)
+
+/-- Runs a history of steps; `none` as soon as an update does not return `Ok`. -/
+def runSteps : List (Step F) → St F → Option (St F)
+  | [], st => some st
+  | s :: ss, st =>
+    let r := s.apply st
+    match r.status with
+    | .ok => runSteps ss r.st
+    | _ => none
+
+/-- Every step's index witnesses are legal in the state it is applied to. -/
+def runLegalIdx : List (Step F) → St F → Bool
+  | [], _ => true
+  | s :: ss, st => s.rx.legalIdx (s.pushed st) && runLegalIdx ss (s.apply st).st
 
 end
 end MahfModel.Cro
